@@ -25,7 +25,8 @@ TRUSTED = [
 
 STR_POOL = ["a", "b", "1", "2", "-3", "007", "True", "False", "nan", "NaN", "now", "", "é", "日本", "x y", " lead",
             "0.7", ".7", "1e5", "2020-01-01", "1_0", "+1", "a.b", "a-b", "None", "inf", "1.0", "0x10", "t", "T",
-            "2020-01-01T00:00:00", "1 days", "A" * 30, "\U0001F600", "-", "null", "0", "1.5", "TRUE", "#", "a%20b"]
+            "2020-01-01T00:00:00", "1 days", "A" * 30, "\U0001F600", "-", "null", "0", "1.5", "TRUE", "#", "a%20b",
+            "a*b", "[x]", "q?", "a:b", "tab\tx", "~", "a b ", "-inf", "1e400"]
 ADVERSARIAL = STR_POOL + ["true", " 7 ", "7 ", "\t7", "1__0", "_1", "1_", "--1", "+-1", "1e", "e5", "1.", "-.5e-3",
                           "Infinity", "-inf", "0b1", "12abc", "2020-13-01", "20200101_120000.000000",
                           "20200101_120000.5", "2020-01-01 01:02:03.5", "2020-01-01T01:02:03.000000005",
@@ -213,12 +214,13 @@ def _run(ctx, pq):
         names = rng.sample(["a", "b", "c_1", "dir0", "Key"], depth)
         kinds = [rng.choice(KINDS + [None, None]) for _ in range(depth)]
         pools = []
+        any_time = any(kd is not None and kd[0] in (4, 7) for kd in kinds)     # "now" is the wall clock for time kinds
         for kd in kinds:
             pool = []
             for _ in range(rng.choice([1, 2, 3])):
                 if kd is None or rng.random() < 0.3:
                     pool.append(rng.choice([t for t in ADVERSARIAL if L.legal_text(t, True)
-                                            and not (kd is not None and kd[0] in (4, 7) and t.lower() in ("now", "today"))]))
+                                            and not (any_time and t.lower() in ("now", "today"))]))
                 else:
                     while True:
                         v, k = rand_typed_value(rng)
@@ -337,7 +339,7 @@ def gen_column(rng, kind, n, drill):
         unit = rng.choice(["ns", "us", "ms", "s"])
         mult = {"s": 1, "ms": 10**3, "us": 10**6, "ns": 10**9}[unit]
         pool = [0, 1577836800 * mult, (1577836800 + 3723) * mult + (mult // 2 if mult > 1 else 0), -86400 * 365 * 50 * mult,
-                4102444800 * mult, 1577836800 * mult + (1 if mult > 1 else 60)]
+                4102444800 * mult, 1577836800 * mult + (1 if mult > 1 else 60)] + ([-30610224000 * mult, 253402300799 * mult] if unit != "ns" else [])
         vals = rng.sample(pool, card)
         a = np.array([rng.choice(vals) for _ in range(n)], dtype="int64").astype("datetime64[%s]" % unit)
         if nulls and n:
@@ -408,7 +410,7 @@ def gen_frame_case(rng, confirm, i):
         n = max(n, 6)
     # a partition column that is itself called dirN collided, in the drill layout, with the positional
     # name of another level (fixed; which == 2 is its regression stream)
-    names = rng.sample(["k", "part", "A_b", "dir0", "year", "x1"], n_on)
+    names = rng.sample(["k", "part", "A_b", "dir0", "year", "x1", "my col", "ü", "a.b", "K"], n_on)
     if which == 2:
         names = [rng.choice(["k", "year"]), "dir0"]
     cols = {}
